@@ -341,6 +341,28 @@ def config_case(item):
             obs = {"raised": rt.guard_id(e) or ("crash:" + rt.describe(e))}
         j = judge(obs, 0.0, amount, float("nan"), 1.0, None, None, integer)
         what = {"price_on_the_date": "missing (valid the day before)"}
+    elif kind == "template_reuse":
+        # one Strategy object: an earlier backtest WITH a commission function, then this one without any
+        _, p, earlier_fee, integer, amount, decl = item
+        data = pd.DataFrame({"x": [p, p, p]}, index=idx, dtype=float)
+
+        class AllocOnce2(bt.core.Algo):
+            def __call__(self, target):
+                if target.now == idx[1]:
+                    target.allocate(amount, child="x")
+                return True
+
+        tpl = bt.Strategy("t", [AllocOnce2()], [bt.Security("x")] if decl == "eager" else ["x"])
+        try:
+            bt.Backtest(tpl, data, initial_capital=CAP, integer_positions=integer, commissions=T.fee_fn(earlier_fee), progress_bar=False).run()
+            b = bt.Backtest(tpl, data, initial_capital=CAP, integer_positions=integer, progress_bar=False)
+            b.run()
+            sec = b.strategy["x"]
+            obs = {"q": float(sec.position), "spent": CAP - float(b.strategy.capital), "pos1": float(sec.position), "value0": 0.0}
+        except Exception as e:
+            obs = {"raised": rt.guard_id(e) or ("crash:" + rt.describe(e))}
+        j = judge(obs, 0.0, amount, p, 1.0, None, None, integer)
+        what = {"commissions_of_this_backtest": None, "an_earlier_backtest_of_the_same_template_had": earlier_fee}
     else:
         _, p, pre, arg, feename, amount, decl = item
         data = pd.DataFrame({"x": [p, p, p]}, index=idx, dtype=float)
@@ -481,6 +503,7 @@ def run(ctx):
     conf = [("deep_fee", p, depth, fe, integer, a) for p in (2.5, 100.0) for depth in (2, 3, 4) for fe in ("flat", "pershare", "prop") for integer in (True, False) for a in (123.45, 1234.5, 7.7)]
     conf += [("backtest_mode", p, pre, arg, fe, a, decl) for p in (2.5, 100.0) for pre in (None, True, False) for arg in (True, False) for fe in (None, "flat") for a in (123.45, 1234.5) for decl in ("lazy", "eager")]
     conf += [("sec_class", p, cls, mult, fe, integer, a) for p in (2.5, 100.0) for cls in ("Security", "FixedIncomeSecurity", "HedgeSecurity", "CouponPayingSecurity", "CouponPayingHedgeSecurity") for mult in (1, 5) for fe in (None, "flat") for integer in (True, False) for a in (1234.5, 12345.6)]
+    conf += [("template_reuse", p, fe, integer, a, decl) for p in (2.5, 100.0) for fe in ("flat", "prop") for integer in (True, False) for a in (123.45, 1234.5) for decl in ("lazy", "eager")]
     conf += [("backtest_gap", p, integer, a) for p in (2.5, 100.0) for integer in (True, False) for a in (123.45, -50.0)]
     for kind in kinds:
         for item, (n, nontrivial, viols) in ctx.run(kind, MOD, "config_case", conf, chunksize=8):
